@@ -11,6 +11,7 @@ import copy
 import math
 import random
 
+import casadi as cs
 import numpy as np
 
 from vf import compilecases as CC, desc as D, gen as G, refmodel as R, workloads as W
@@ -180,6 +181,53 @@ def one(M, rec, rng, g, desc, pars, st):
                     rec.sample({"desc": desc, "declared_parameters": list(sym.parameters), "values": pvals, "compact": compact})
 
 
+def user_kind_with_a_keyword_parameter(M, rec, rng, reps):
+    """A user-defined ramp whose flow law takes one more model parameter by keyword (`q_max`, with a default); it
+    travels with the step's other parameters.  Declared as a symbolic parameter it must behave like the number."""
+    from sym_metanet.engines.casadi import Engine as CE
+    from vf import userkinds as UK
+
+    for it in range(reps):
+        st = ("SX", "MX")[it % 2]
+        XX = getattr(cs, st)
+        T = 10 / 3600
+
+        def build():
+            n1, n2 = M.Node(name="A"), M.Node(name="B")
+            l1 = M.Link(rng_N, 2, 1.0, 180.0, 33.5, 102.0, 1.867, name="L1")
+            o = UK.CappedOnRamp(2500.0, name="O1")
+            return M.Network().add_path((n1, l1, n2), origin=o, destination=M.Destination(name="D1"))
+
+        rng_N = rng.choice((1, 2, 3))
+        qsym = XX.sym("q_max")
+        kw = dict(T=T, tau=18 / 3600, eta=60.0, kappa=40.0)
+        try:
+            ns, nn = build(), build()
+            es, en = CE(st), CE(st)
+            qnum = rng.choice((600.0, 1200.0, 1800.0))
+            ns.step(engine=es, q_max=qsym, **kw)
+            nn.step(engine=en, q_max=qnum, **kw)
+            for compact in (0, 1, 2):
+                Fs = es.to_function(ns, compact=compact, more_out=True, parameters={"q_max": qsym}, **kw)
+                Fn = en.to_function(nn, compact=compact, more_out=True, q_max=qnum, **kw)
+                args = [cs.DM([rng.uniform(10, 60) for _ in range(Fn.size1_in(i_))]) for i_ in range(Fn.n_in())]
+                # a long queue and a high demand, metering open: the cap is what binds
+                a = Fn(*args)
+                b = Fs(*args, cs.DM(qnum))
+                a = list(a) if isinstance(a, (list, tuple)) else [a]
+                b = list(b) if isinstance(b, (list, tuple)) else [b]
+                rec.count("user_kind_keyword_parameter_checks")
+                for i_, (x_, y_) in enumerate(zip(a, b)):
+                    if not np.allclose(np.asarray(x_, dtype=float), np.asarray(y_, dtype=float), rtol=1e-9, atol=1e-9, equal_nan=True):
+                        rec.violation(f"{PROP}:compact={compact}: with a user-defined kind taking a declared parameter by keyword, result {Fn.name_out()[i_]} "
+                                      f"of the parametric function differs from the function compiled with the number",
+                                      {"sym_type": st, "q_max": qnum, "parametric": np.asarray(y_, dtype=float).ravel().tolist(),
+                                       "numeric": np.asarray(x_, dtype=float).ravel().tolist()})
+                        break
+        except Exception as e:
+            rec.violation(f"{PROP}:user kind with a keyword parameter: raised {type(e).__name__}", {"exception": repr(e)[:300]})
+
+
 def run(M, rec, tier, seed, k, n):
     np.seterr(all="ignore")
     rng = random.Random(seed * 1000 + k + 1600)
@@ -191,6 +239,7 @@ def run(M, rec, tier, seed, k, n):
         pars = g.pars(delta=True if it % 2 == 0 else None, phi=True if it % 3 == 0 else None)
         for st in ("SX", "MX"):
             one(M, rec, rng, g, desc, pars, st)
+    user_kind_with_a_keyword_parameter(M, rec, rng, 12 if tier == "quick" else 100)
 
 
 def finish(M, rec, write=True):
